@@ -87,7 +87,16 @@ def build_sample(case, d):
     params = []
     if st == "params" or rng.random() < 0.3:
         params = rng.choice([["gap=0.1"], ["gap=0.3", "max_minor_solutions=2"], ["max-minor-solutions=3"], ["threshold=0.4"],
-                             ["min_avg_coverage=5"], ["phase=false"], ["min_quality=15", "gap=0.1"]])
+                             ["min_avg_coverage=5"], ["phase=false"], ["min_quality=15", "gap=0.1"],
+                             # the four fields the archive loader resets (sam.py:324-327) and genotype() has to restore from the
+                             # parameters of the replay; min_avg_coverage=500 makes the original run refuse the gene
+                             ["display_format=true"], ["min_avg_coverage=500"], ["display_format=true", "gap=0.1"], ["debug_novel=true"]])
+    # a user-supplied structure (--cn): another route to the Profile object of the run (Profile(..., cn_solution, **params))
+    if st == "params" and rng.random() < 0.6:
+        params = rng.choice([["display_format=true"], ["min_avg_coverage=500"], ["display_format=true", "gap=0.1"], ["debug_novel=true"],
+                             ["min_avg_coverage=5", "display_format=true"]])
+    if st in ("plain", "indels", "neutral-gap") and rng.random() < 0.4 or st == "params" and rng.random() < 0.7:
+        extra["cn"] = "1,1"
     bam = os.path.join(d, f"S{case['seed'] % 100000}.bam")
     simreads.simulate(desc, build, alleles, None, L, step, bam, rng, noise=noise, background=background)
     return yml, desc, build, prof, bam, alleles, params, extra
@@ -184,6 +193,8 @@ def run_case(case):
             if prof["cn_region"] is not None:
                 c = prof["cn_region"]
                 args += ["--cn-neutral-region", f"{c.chr}:{c.start}-{c.end}"]
+            if extra.get("cn"):
+                args += ["--cn", extra["cn"]]
         pargs = [x for p in params for x in ("--param", p)]
         prefix = os.path.join(d, "dbg")
         out1, out2 = os.path.join(d, "run1.aldy"), os.path.join(d, "run2.aldy")
@@ -196,7 +207,8 @@ def run_case(case):
         # "with the same parameters": the profile option of the original run is given again (for an archive only its alias handling
         # matters: exome / wxs / wes switch copy-number calling off on the Gene object, which is not part of the dump)
         prof_arg = ["--profile", case["profile"]] if case.get("shipped") else ["--profile", prof["profile"]]
-        r2, cap2 = run_main(["genotype", archive, "--gene", yml, "--output", out2] + prof_arg + pargs)
+        cn_arg = ["--cn", extra["cn"]] if extra.get("cn") else []
+        r2, cap2 = run_main(["genotype", archive, "--gene", yml, "--output", out2] + prof_arg + cn_arg + pargs)
         res["run2"] = r2
         res["out1"] = open(out1).read() if os.path.exists(out1) else None
         res["out2"] = open(out2).read() if os.path.exists(out2) else None
